@@ -120,7 +120,11 @@ def make_problem(case0):
                 # workers overlap in time (each design has its own budget of five attempts, whatever the others do)
                 time.sleep(0.002)
             if o in TRANSIENT:
-                raise TRANSIENT[o][(key + n) % len(TRANSIENT[o])]("scripted transient failure")
+                # the arguments of the exception are the user's business: a message, nothing, an errno pair, a number,
+                # another exception
+                args = [("scripted transient failure",), (), (110, "Connection timed out"), (-3,),
+                        (ValueError("inner"),)][(key * 3 + n) % 5]
+                raise TRANSIENT[o][(key + n) % len(TRANSIENT[o])](*args)
             raise FATAL[int(o[1:])]("scripted fatal failure")
 
         def evaluate_inequality_constraints(self, x):
@@ -191,6 +195,10 @@ def drive(case):
                         # the other individual's vector): whatever happens to one design must not change the other's vector
                         ind.vector = problem.v_objs[twin].vector
                     ind.features["precision"] = case["designs"][k]["prec"]
+                    if k % 4 == 2 and k - 1 < len(problem.v_objs) and k >= 1:
+                        # a distinct design object that carries the id of another one (copies made with copy.copy / deepcopy
+                        # of a template, individuals restored with from_dict): each object is a design of its own
+                        ind.id = problem.v_objs[k - 1].id
                     if problem.v_register(ind) != k:
                         raise InfraError("harness: design keys out of order")
                 cmds.append("n:" + vec(step[1]))
@@ -240,6 +248,20 @@ def drive(case):
                 cmds.append("w:" + vec(ks))
                 if len(ks) != len(step[1]):
                     results[-1] = ("w", "E:recorded-%d-designs-for-%d-vectors" % (len(ks), len(step[1])))
+                if len(step) > 2 and exc is None:
+                    # the same algorithm object run again after its generator was given another table: the sweep evaluates
+                    # exactly the generator's designs - the ones it has now
+                    start2 = len(problem.v_objs)
+                    gen.init([list(v) for v in step[2]])
+                    try:
+                        sw.run()
+                    except Exception as e:      # noqa
+                        exc = e
+                    ks2 = new_objects(start2)
+                    results.append(("w", classify(exc)))
+                    cmds.append("w:" + vec(ks2))
+                    if len(ks2) != len(step[2]):
+                        results[-1] = ("w", "E:recorded-%d-designs-for-%d-vectors" % (len(ks2), len(step[2])))
             elif op in ("scipy", "nlopt"):
                 if op == "scipy":
                     from artap.algorithm_scipy import ScipyOpt
@@ -732,7 +754,10 @@ def gen_scalar_case(rng, kind, pool=None):
             vs = [gen_vec(rng, case) for _ in range(rng.randint(0, 6))]
             if vs and rng.random() < 0.5:
                 vs.append(list(vs[0]))       # the generator may repeat a vector: two designs, two evaluations
-            case["program"].append(["sweep", vs])
+            if vs and rng.random() < 0.3:
+                case["program"].append(["sweep", vs, [gen_vec(rng, case) for _ in range(rng.randint(1, 5))]])
+            else:
+                case["program"].append(["sweep", vs])
     elif kind == "scipy":
         case["program"].append(["scipy", rng.choice(["Nelder-Mead", "Powell"]), rng.randint(1, 3)])
     elif kind == "nlopt":
